@@ -566,9 +566,9 @@ static void case_bilinear(Rng& rng, uint64_t index)
 
 static void setup()
 {
-	add_generator("tables", ctx().count(14400, 1600000), case_table);
-	add_generator("exact_lines_parabolas", ctx().count(18000, 1600000), case_exact_poly);
-	add_generator("grids_2d", ctx().count(9000, 800000), case_grid);
-	add_generator("bilinear_2d", ctx().count(9000, 800000), case_bilinear);
+	add_generator("tables", ctx().count(14400, 3200000), case_table);
+	add_generator("exact_lines_parabolas", ctx().count(18000, 3200000), case_exact_poly);
+	add_generator("grids_2d", ctx().count(9000, 1600000), case_grid);
+	add_generator("bilinear_2d", ctx().count(9000, 1600000), case_bilinear);
 }
 VERIF_MAIN("C01", setup)
